@@ -395,7 +395,25 @@ def repro_bool_derivative():
     return bool(numpy.asarray(r).any()), f'derivative(all(a > 0), a) = {numpy.asarray(r).tolist()}'
 
 
-REPRODUCERS = {DET_SINGULAR: repro_det_singular, 'C04-bool-int-expression-derivative-raises': repro_bool_derivative}
+def repro_power_repeated():
+    from nutils import evaluable as ev
+    a = ev.Argument('a', (ev.constant(3),), float)
+    av = dict(a=numpy.array([0., 1., 2.]))
+    bad = []
+    for p, order, expect in ((1., 2, 0.), (2., 3, 0.), (2., 2, 2.)):
+        d = ev.Power(a, ev.InsertAxis(ev.constant(p), ev.constant(3)))
+        for _ in range(order):
+            d = ev.derivative(d, a)
+        with numpy.errstate(all='ignore'), warnings.catch_warnings():
+            warnings.simplefilter('ignore')
+            r = numpy.asarray(ev.eval_once(d, arguments=av))
+        diag = r[(numpy.arange(3),) * r.ndim]
+        if not numpy.isfinite(r).all() or not numpy.allclose(diag, expect):
+            bad.append(f'd^{order}(a**{p:g})/da^{order} at a=[0,1,2] -> diagonal {diag.tolist()} (expected {expect:g})')
+    return bool(bad), '; '.join(bad) or 'repeated derivatives of a**1 and a**2 (broadcast constant exponent) are finite and right at a=0'
+
+
+REPRODUCERS = {'C04-power-repeated-derivative-nan-at-zero': repro_power_repeated, DET_SINGULAR: repro_det_singular, 'C04-bool-int-expression-derivative-raises': repro_bool_derivative}
 
 
 def finalize(m, tier, seed):
